@@ -305,8 +305,13 @@ func (t *Translator) closeCurrentBlockIfNeeded(state *StreamingState, blockType 
 // initializeToolBlock creates and sends a new tool_use block start event
 func (t *Translator) initializeToolBlock(id, name string, toolIndex int, state *StreamingState, w http.ResponseWriter, rc *http.ResponseController) error {
 	// close current text block before starting tool block, anthropic requires this
-	if err := t.closeCurrentBlockIfNeeded(state, contentTypeText, w, rc); err != nil {
-		return err
+	// Close whichever block is still open. A preceding text block and a preceding tool_use
+	// block (consecutive tool calls) both need their content_block_stop before the next
+	// block may start.
+	if state.currentBlock != nil {
+		if err := t.closeCurrentBlockIfNeeded(state, state.currentBlock.Type, w, rc); err != nil {
+			return err
+		}
 	}
 
 	state.currentBlock = &ContentBlock{
